@@ -123,7 +123,7 @@ func init() {
 	probeNames["C01"] = []string{"recovered_last", "recovered_inprogress", "continuation", "pending_gt_exh", "torn_header", "txid_wrap", "truncate_pending", "image_nonempty_pending", "commit_ok", "reopen", "big_transaction", "writer_batch_limit_reached", "second_crash_after_recovery"}
 	register(&PropDef{
 		ID: "C01", Level: "fault_enumeration", QuickSec: 55, ThoroSec: 1200,
-		Rule: "each run = one seeded txops history (config and writer timing drawn per run); evaluations = crash images: for EVERY op-log index after file creation (crash just before that I/O call) x subsets of the writes/truncates issued since the last completed sync (all 2^n subsets for n<=6 quick / 8 thorough, else none/all/all-but-one/singletons/prefixes/random) x header tears at all field boundaries + random offsets; each image is opened by the real engine and compared with the allowed model state selected by header txid, then every 4th image runs a continuation workload + reopen; for up to 4 (thorough: 12) of the continued images per run, preferably ones with a torn header, the continuation itself is cut at every I/O boundary again (second crash right after a recovery, reduced subset family, header tears) and evaluated the same way. Non-trivial = image with at least one pending op; distinct = (run signature, crash index, kept subset, tear).",
+		Rule: "each run = one seeded txops history (config and writer timing drawn per run); evaluations = crash images: for EVERY op-log index after file creation (crash just before that I/O call) x subsets of the writes/truncates issued since the last completed sync (all 2^n subsets for n<=6 quick / 8 thorough, else none/all/all-but-one/singletons/prefixes/random) x header tears at all field boundaries + random offsets; each image is opened by the real engine and compared with the allowed model state selected by header txid, then every 4th image runs a continuation workload + reopen; for up to 4 (thorough: 12) of the continued images per run, preferably ones with a torn header, the continuation itself is cut at every I/O boundary again (second crash right after a recovery, reduced subset family, header tears) and evaluated the same way. The enumeration of the run that is in progress when the batch budget ends is cut short (its remaining crash points are not evaluated). Non-trivial = image with at least one pending op; distinct = (run signature, crash index, kept subset, tear).",
 		Real: defaultReal, Stub: defaultStub, Assume: defaultAssume,
 		FaultKinds: []string{"crash at every I/O boundary", "lost un-synced page writes (subset enumeration)", "reordered writes (subset semantics)", "torn header write", "lost truncate"},
 		Body: c01Body,
